@@ -54,8 +54,8 @@ Lemma live_accepted_in_every_way_of_running :
   (forall e m, In e (inv_entities live) -> In m (ei_modes e) -> mode_ok (ei_help_struct e) m).
 Proof.
   destruct live_holds as [H1 [_ [H3 _]]]. split.
-  - intros p m Hp Hm. destruct (H1 p Hp) as [_ [_ H]]. apply H. exact Hm.
-  - intros e m He Hm. destruct (H3 e He) as [_ [_ H]]. apply H. exact Hm.
+  - intros p m Hp Hm. destruct (H1 p Hp) as [_ [_ [H _]]]. apply H. exact Hm.
+  - intros e m He Hm. destruct (H3 e He) as [_ [_ [H _]]]. apply H. exact Hm.
 Qed.
 
 Lemma live_every_help_request_succeeds :
